@@ -19,7 +19,8 @@ TECHNIQUE = "runtime reference-model monitor of register transforms (func fed in
 RULE = ("polynomial/rational expressions over 1-5 distinct registers q0..q120 with int/float coefficients, constants and declared variables, in "
         "positional and keyword position; generic real measurement values; each case executed under 4 hash seeds; non-trivial = at least 2 "
         "distinct registers and pairing-sensitive (swapping two measurement values changes the reference value); distinct by SHA-1 of the text"
-        '; fractional powers of even powers; every transform also evaluated at complex measurement values')
+        '; fractional powers of even powers; every transform also evaluated at complex measurement values'
+        '; negative integer exponents; every transform also evaluated at integer measurement values of four magnitudes against the equal floats')
 BUDGET = {"quick": 2400, "thorough": 30000}   # cases per seed group; every case runs under SEEDS hash seeds
 MIN_NONTRIVIAL = {"quick": 300, "thorough": 3000}
 REQUIRED_FUNCTIONS = ["listener.py:RegRefTransform.__init__", "listener.py:BlackbirdListener.exitStatement"]
